@@ -622,6 +622,7 @@ impl MqttClientImpl {
         };
 
         client_impl.reconnect_options.normalize();
+        client_impl.next_reconnect_period = client_impl.reconnect_options.base_reconnect_period;
 
         client_impl
     }
@@ -815,6 +816,10 @@ impl MqttClientImpl {
     }
 
     fn compute_uniform_jitter_period(&self, max_nanos: u128) -> Duration {
+        if max_nanos == 0 {
+            return Duration::ZERO;
+        }
+
         let mut rng = rand::thread_rng();
         let uniform_nanos = rng.gen_range(0..max_nanos);
         Duration::from_nanos(uniform_nanos as u64)
@@ -822,7 +827,7 @@ impl MqttClientImpl {
 
     pub(crate) fn advance_reconnect_period(&mut self) -> Duration {
         let reconnect_period = self.next_reconnect_period;
-        self.next_reconnect_period = self.clamp_reconnect_period(self.next_reconnect_period * 2);
+        self.next_reconnect_period = self.clamp_reconnect_period(self.next_reconnect_period.saturating_mul(2));
 
         match self.reconnect_options.reconnect_period_jitter {
             ExponentialBackoffJitterType::None => {
